@@ -53,9 +53,9 @@ TPar ==
     \E o \in {1, 2} :
         LET f  == IF o = 1 THEN x ELSE y      rf == IF o = 1 THEN Ev.ra ELSE Ev.rb
             g  == IF o = 1 THEN y ELSE x      rg == IF o = 1 THEN Ev.rb ELSE Ev.ra
-            S1 == AfterIn(StateRec, f, rf)
+            S1 == AfterIn(CurStoreState, f, rf)
             S2 == AfterIn(S1, g, rg)
-        IN /\ ResOkIn(StateRec, f, rf) /\ ResOkIn(S1, g, rg)
+        IN /\ ResOkIn(CurStoreState, f, rf) /\ ResOkIn(S1, g, rg)
            /\ hdr' = S2.hdr /\ sampled' = S2.sampled /\ pruned' = S2.pruned /\ meta' = S2.meta
            /\ res' = rg
 
